@@ -227,6 +227,9 @@ def summarize(fn, exceptional=False, extra_forward=None, roles=None, inline=None
                     calls.append((env.c(t), t, e, len(fwds)))
                 if e['ev'] == 'return' and e.get('e') is not None:
                     ret_term = env.subst(e['e'])
+                if e['ev'] == 'init' and depth == 0 and not e.get('implicit'):
+                    tgt = ('this.' + e['field']) if e.get('field') else ('base:' + strip_ns(e.get('base', 'delegating')))
+                    meta.setdefault('writes', []).append((tgt, env.c(e['e']), e, len(fwds), len(calls)))
                 if e['ev'] in ('assign', 'incdec') and depth == 0:
                     rhs = env.c(e['rhs']) if 'rhs' in e else e['op']
                     meta.setdefault('writes', []).append((env.c(e['lhs']), rhs, e, len(fwds), len(calls)))
